@@ -74,6 +74,17 @@ pub enum GenerationSource<'a> {
     Arbitrary(&'a mut Unstructured<'a>),
 }
 
+#[cfg(feature = "verif-hooks")]
+impl GenerationSource<'_> {
+    /// number of unread fuzzer bytes (`None` for the PRNG source).
+    pub fn entropy_left(&self) -> Option<usize> {
+        match self {
+            GenerationSource::Rand(_) => None,
+            GenerationSource::Arbitrary(u) => Some(u.len()),
+        }
+    }
+}
+
 /// trait for abstracting entropy sources used in pickle generation.
 ///
 /// this trait provides a unified interface for generating random values
